@@ -62,6 +62,15 @@ static delta_encoder_t *mk_encoder(void) {
   return enc;
 }
 
+void h_encoder_init(void) {
+  delta_encoder_t *enc = malloc(sizeof(*enc));
+  __CPROVER_assume(enc != NULL);
+  uint8_t *data = nondet_ptr();
+  size_t cap = nondet_size_t();
+  carquet_status_t st = delta_encoder_init(enc, data, cap);
+  CQV_CANARY("delta_encoder_init returns");
+}
+
 void h_flush_block(void) {
   delta_encoder_t *enc = mk_encoder();
   carquet_status_t st = delta_encoder_flush_block(enc);
